@@ -1332,3 +1332,26 @@ Proof.
     destruct (stream_io E s ev) as [s1 e1]; cbn [snd] in *.
     change (EPoll ev :: e1) with ([EPoll ev] ++ e1). rewrite nallocs_app. cbn. lia.
 Qed.
+
+(* item 20 on the repaired code: the same kernel answers on an IPC pipe now give
+   "A", "BBBB", then one UV_EOF carrying the buffer of the read that returned 0 *)
+Lemma item20_repaired :
+  let tr := snd (exec wit_env (init true true wit_oracle)
+                      [OStart 1; ORun 17 false; ORun 17 false; ORun 17 false; ORun 17 false]) in
+  kernel_ok false monB0 tr /\
+  delivered tr = [(0, 1); (1, 4)] /\
+  filter (fun e => match e with ERead _ n _ _ _ => n =? UV_EOF | _ => false end) tr =
+    [ERead 1 UV_EOF (Some 2%nat) 0 0] /\
+  eof_data_b tr = true.
+Proof. vm_compute. repeat split. Qed.
+
+(* the scenario C06_silent_until_restart must cover: UV_EOF, then the handle stays
+   polled for POLLOUT and the peer resets (POLLOUT|POLLERR|POLLHUP): uv__stream_io
+   enters uv__read, read_cb is still set, READING is clear -> no callback *)
+Lemma polled_after_eof_is_silent :
+  let tr := snd (exec wit_env (init true false [Data 3; Eof; Data 9])
+                      [OStart 1; ORun 1 false; ORun 17 false; ORun 28 true; OIo 25; ORun 28 true]) in
+  filter (fun e => match e with ERead _ _ _ _ _ | EAlloc _ _ _ => true | _ => false end) tr =
+    [EAlloc 0 65536 (mkBuf true 65536); ERead 1 3 (Some 0%nat) 0 3;
+     EAlloc 1 65536 (mkBuf true 65536); ERead 1 UV_EOF (Some 1%nat) 0 0].
+Proof. vm_compute. reflexivity. Qed.
